@@ -124,6 +124,13 @@ CLAIMED = {
          "to (N-1)/N; model tied to the code by azimuthal histories with unequal acceptance (all statistics, both distributions) and probes (order of azimuths, mean of means, cov diagonal, pooled reduction).",
     note="Known finding C11-a (NaN peaks counted in the weights after a time-domain mask) is reported as KNOWN-FINDING. mean-of-means / equal-count reduction are tested on the implementation, proved only for one azimuth.",
     technique="Lean 4 theorems + history correspondence", design="5/C11"),
+ "C20": dict(
+    text="Theorems over the model of postprocessing.py: accepted/rejected line partition by the window mask (per window, in order, carrying that window's curve; per azimuth too), mean/std/peak/fn-band "
+         "artists equal the object's statistics, plot_pre_and_post_rejection restores both masks on the normal AND the exceptional exit (state machine with try/finally), every modelled plotting/summary "
+         "function returns the state unchanged, fn row and period row (= lognormal median and log-std of the reciprocal peaks, via C05 reciprocity). Tied to the code by bit-exact snapshots of the whole "
+         "object graph around every public plotting/summary function (incl. injected exceptions), Agg artists canonicalised by style class vs the model and vs the object's accessors, and the DataFrame handed to a patched display.",
+    note="Trusted: matplotlib/pandas store what they are given; style classes are read from DEFAULT_KWARGS at run time.",
+    technique="Lean 4 theorems (state machine with exceptional exit) + artist/table correspondence + snapshots", design="5/C20"),
 }
 PENDING_REASON = "check not built yet in this round (work in progress; design in DESIGN.md section 5)"
 
@@ -144,7 +151,7 @@ for pid in ids:
         ))
 manifest = dict(
     version=1,
-    setup_cmd="cd lean && lake build HvsrVerif hvsrdrv drv_c07 drv_c10 drv_c14 drv_c15 drv_c19",
+    setup_cmd="cd lean && lake build HvsrVerif hvsrdrv drv_c07 drv_c10 drv_c14 drv_c15 drv_c19 drv_c20",
     hooks=dict(guard="HVSRPY_VERIF", enable="HVSRPY_VERIF=1 (set by the harness; no source hooks are needed)",
                baseline_off_cmd="cd /repo && /venv/bin/python -m pytest -ra -q -p no:cacheprovider --timeout=900 --continue-on-collection-errors",
                source_commits=[], add_only=True),
